@@ -132,7 +132,7 @@ def generate(rng, tier):
             op["fault"] = rng.choice([{"kind": "enospc", "at": rng.randint(1, 60), "torn": rng.random() < 0.5},
                                       {"kind": "eio", "at": rng.randint(1, 60)},
                                       {"kind": "open", "at": rng.randint(1, 2)},
-                                      {"kind": "interrupt", "at": rng.randint(1, 300)}])
+                                      W.gen_interrupt(rng, 300)])
         if ops and rng.random() < 0.35:
             op["same_stem"] = True
         ops.append(op)
